@@ -56,6 +56,10 @@ def exact_ratio_logdet(drv6, t, s, x):
     return total, [float(f) for f in fr]
 
 
+class _SkipFlex(Exception):
+    pass
+
+
 def shares_bound_tree(n, rng):
     """a caterpillar whose oldest tip sits deepest: every internal node on the spine shares its bound with its
     parent"""
@@ -98,29 +102,35 @@ def ratio_cases(ck, rng):
     return out
 
 
-def check_ratio(ck, drv6, label, t, ages, x, record):
+def check_ratio(ck, drv6, label, t, ages, x, record, dtype=None, with_ad=True, with_flex=True):
     from torchtree import Parameter, TransformedParameter
     from torchtree.evolution.tree_height_transform import GeneralNodeHeightTransform
     from torchtree.evolution.tree_model_flexible import FlexibleTimeTreeModel
 
     n = len(ages)
-    rep = {"type": "scale-ratio", "label": label, "tree": G.paren(t), "dates": ages, "x": [x]}
+    rep = {"type": "scale-ratio", "label": label, "tree": G.paren(t), "dates": ages, "x": [list(x)],
+           "dtype": str(dtype or DT), "big": not with_flex}
     ck.case(key=("scale-ratio", label, G.paren(t), tuple(ages), tuple(x)), nontrivial=n >= 3,
             sample=rep if "sharing" in label else None, bucket="scale/ratio/" + label.split(",")[0].split(" x")[0])
+    dtype = dtype or DT
+    eps, rel = (EPS, 1e-9) if dtype == torch.float64 else (1.1920929e-07, 1e-5)
     try:
-        m = G.make_reparam(t, ages, torch.tensor(x, dtype=DT), "ratio")
-        s = m.sampling_times.tolist()
+        xt = torch.tensor(x, dtype=dtype)
+        x = xt.to(DT).tolist()  # the values the implementation really receives (float32 inputs are exact doubles)
+        m = G.make_reparam(t, ages, xt.clone(), "ratio")
+        s = m.sampling_times.to(DT).tolist()
         exact, gaps = exact_ratio_logdet(drv6, t, s, x)
         if exact is None:
             return
         S = max(abs(x[-1]), max(abs(v) for v in s))  # size of the heights whose rounding the subtraction amplifies
-        tol = 1e-9 * abs(float(exact)) + sum(4 * EPS * S / g for g in gaps) + 1e-12
-        xt = torch.tensor(x, dtype=DT)
+        tol = rel * abs(float(exact)) + sum(4 * eps * S / g for g in gaps) + 1e-12
         y = m.transform(xt)
         reported = {
             "transform.log_abs_det_jacobian": m.transform.log_abs_det_jacobian(xt, y).item(),
             "ReparameterizedTimeTreeModel()": m().item(),
         }
+        if not with_flex:
+            raise _SkipFlex(reported, exact, tol, gaps, s)
         # a TransformedParameter wrapping the transform on a FlexibleTimeTreeModel
         dic = {}
         FlexibleTimeTreeModel.from_json(
@@ -132,16 +142,26 @@ def check_ratio(ck, drv6, label, t, ages, x, record):
                                   "parameters": {"tree": "tree"},
                                   "x": {"id": "hx", "type": "Parameter", "tensor": x, "dtype": "torch.float64"}}}, dic)
         reported["TransformedParameter()"] = dic["heights"]().item()
-        J = jacobian(lambda v: m.transform(v), xt)
-        ad = torch.linalg.slogdet(J)[1].item()
+        ad = float("nan")
+        if with_ad:
+            J = jacobian(lambda v: m.transform(v), xt)
+            ad = torch.linalg.slogdet(J)[1].item()
         for how, val in reported.items():
             if not abs(val - float(exact)) <= tol:
                 record(f"GeneralNodeHeightTransform:logdet-scale:{how}",
                        f"{label}: {how} = {val!r} but the exact log|det J| is {float(exact)!r} (AD Jacobian: {ad!r}; smallest "
                        f"parent−bound gap {min(gaps):.3g}; parameters {x}, sampling times {s})", rep, (n, 1))
                 return
-        if not abs(ad - float(exact)) <= 10 * tol + 1e-9 * abs(ad):
+        if with_ad and not abs(ad - float(exact)) <= 10 * tol + 1e-9 * abs(ad):
             ck.mismatch("AD Jacobian vs exact model (scale sweep)", {"case": rep, "ad": ad, "exact": float(exact)})
+    except _SkipFlex as sk:
+        reported, exact, tol, gaps, s = sk.args
+        for how, val in reported.items():
+            if not abs(val - float(exact)) <= tol:
+                record(f"GeneralNodeHeightTransform:logdet-size:{how}",
+                       f"{label}: {how} = {val!r} but the exact log|det J| is {float(exact)!r} ({n} taxa, {dtype}, root height {x[-1]!r}, "
+                       f"smallest parent−bound gap {min(gaps):.3g})", rep, (n, 1))
+                return
     except Exception as e:
         record("GeneralNodeHeightTransform:logdet-scale:raises", f"{label}: raises {type(e).__name__}: {str(e)[:140]}", rep, (n, 1))
 
@@ -266,6 +286,121 @@ def check_others(ck, rng, record):
                    {"type": "scale-other", "name": "lograte", "x": rates, "tree": G.paren(t)}, (n, 1))
 
 
+def check_big_trees(ck, drv6, rng, record):
+    """SIZE regime: 60 / 200 / 500 taxa at several time units, float64 and float32: the true log|det J| is far outside
+    the range of exp (a product of the factors over/underflows), the reported value must still be the exact one"""
+    plan = [(60, 2000.0, torch.float32), (60, 0.02, torch.float32), (200, 2000.0, DT), (200, 0.02, DT), (200, 30.0, torch.float32)]
+    plan += [(500, 2000.0, DT), (500, 0.02, DT)] if ck.thorough() else [(500, rng.choice([2000.0, 0.02]), DT)]
+    for n, root, dt in plan:
+        t = G.random_flip(G.random_topology(n, rng), rng)
+        unit = root / 20.0
+        ages = [rng.randrange(0, 17) / 4.0 * unit for _ in range(n)]
+        ages[rng.randrange(n)] = 0.0
+        # deep trees: ratios near 1 keep every node representably above its bound (relative margin >= 1e-7 in double,
+        # 1e-3 in single); points where a node collapses onto its bound in floats are outside the testable domain
+        need = 1e-7 if dt == DT else 1e-3
+        for lo in (0.6, 0.8, 0.9, 0.95, 0.98):
+            x = [rng.uniform(lo, 0.995) for _ in range(n - 2)] + [max(ages) + root]
+            if G.ratio_margin(t, ages, x) >= need:
+                break
+        else:
+            continue
+        check_ratio(ck, drv6, f"{n} taxa, root height {root:g}, {dt}", t, ages, x, record, dtype=dt, with_ad=False, with_flex=False)
+
+
+# ----------------------------------------------------------------------------- inverse∘forward over the whole exp range
+GRID64 = [-700.0, -100.0, -37.0, -30.0, -20.0, -17.0, -10.0, -1.0, -1e-9, 0.0, 1e-9, 1.0, 10.0, 17.0, 20.0, 30.0, 37.0, 100.0, 700.0]
+GRID32 = [-80.0, -37.0, -30.0, -20.0, -17.0, -10.0, -1.0, 0.0, 1.0, 10.0, 17.0, 20.0, 30.0, 37.0, 80.0]
+
+
+def inverse_cases():
+    """(name, constructor, x from grid value g, absolute conditioning of the inverse at y (mp), restrict)"""
+    from torchtree.distributions import transforms as T
+
+    def k_softplus(xv):  # d/dy log(expm1 y) * y  at y = softplus(x)
+        y = mp.log1p(mp.e ** mp.mpf(xv))
+        return y * mp.e ** y / mp.expm1(y)
+
+    def k_logit(xv):  # y * d/dy logit(y) at y = sigmoid(x):  1 / (1 - y)
+        return 1 + mp.e ** mp.mpf(xv)
+
+    return [
+        ("SoftPlusTransform", lambda: T.SoftPlusTransform(), lambda g: g, k_softplus, None),
+        ("torch.SoftplusTransform", lambda: D.SoftplusTransform(), lambda g: g, k_softplus, None),
+        ("torch.ExpTransform", lambda: D.ExpTransform(), lambda g: g, lambda xv: mp.mpf(1), None),
+        ("torch.SigmoidTransform", lambda: D.SigmoidTransform(), lambda g: g, k_logit, 36.0),
+        # LogTransform: x = exp(g) covers 1e-304 … 1e304; forward log, inverse exp: relative error |log x|·eps
+        ("LogTransform", lambda: T.LogTransform(), lambda g: math.exp(g), None, None),
+    ]
+
+
+def check_inverse_sweep(ck, rng, record):
+    from torchtree.distributions import transforms as T
+
+    for dt, grid, rel, eps in ((DT, GRID64, 1e-12, EPS), (torch.float32, GRID32, 1e-5, 1.1920929e-07)):
+        tiny = torch.finfo(dt).tiny
+        for name, ctor, to_x, cond, restrict in inverse_cases():
+            tr = ctor()
+            for g in grid:
+                if restrict is not None and abs(g) > restrict:
+                    continue
+                xv = to_x(g)
+                x = torch.tensor([xv], dtype=dt)
+                xin = x.to(DT).item()
+                ck.case(key=("inverse-sweep", name, g, str(dt)), bucket=f"inverse-sweep/{name}/{dt}")
+                try:
+                    y = tr(x)
+                    yv = y.to(DT).item()
+                    if not math.isfinite(yv) or (name != "LogTransform" and name != "torch.ExpTransform" and 0 < abs(yv) < tiny) \
+                            or (name == "torch.ExpTransform" and (yv == 0.0 or yv < tiny)) or (name != "LogTransform" and yv == 0.0 and "oftplus" in name.lower()):
+                        continue  # forward value not representable (as a normal number) in this dtype
+                    back = tr.inv(y).to(DT).item()
+                    if name == "LogTransform":
+                        tol = (rel + 4 * eps * abs(g)) * abs(xin)
+                    else:
+                        tol = rel * abs(xin) + 8 * eps * float(cond(xin)) + 4 * eps
+                    if not abs(back - xin) <= tol:
+                        record(f"{name}:inverse-sweep:{dt}",
+                               f"{name} ({dt}): inverse(forward({xin!r})) = {back!r} (forward value {yv!r}; error {abs(back - xin):.3g}, "
+                               f"allowed {tol:.3g})", {"type": "inverse-sweep", "name": name, "x": xin, "dtype": str(dt)}, (1, 1))
+                        break
+                except Exception as e:
+                    record(f"{name}:inverse-sweep:raises", f"{name} at {xin!r} ({dt}): raises {type(e).__name__}: {str(e)[:120]}",
+                           {"type": "inverse-sweep", "name": name, "x": xin, "dtype": str(dt)}, (1, 1))
+                    break
+        # cumulative transforms: running sums sweep the grid; error allowed relative to the largest running sum
+        for name, ctor in (("CumSumTransform", T.CumSumTransform), ("CumSumExpTransform", T.CumSumExpTransform),
+                           ("CumSumSoftPlusTransform", T.CumSumSoftPlusTransform)):
+            for g0 in grid:  # every grid value is visited as a running sum, between two random others
+                targets = [rng.choice(grid), g0, rng.choice(grid), rng.choice(grid)]
+                steps = [targets[0]] + [b - a for a, b in zip(targets, targets[1:])]
+                x = torch.tensor(steps, dtype=dt)
+                xs = x.to(DT).tolist()
+                ck.case(key=("inverse-sweep", name, tuple(steps), str(dt)), bucket=f"inverse-sweep/{name}/{dt}")
+                try:
+                    tr = ctor()
+                    y = tr(x)
+                    ys = y.to(DT).tolist()
+                    if not all(math.isfinite(v) for v in ys) or (name != "CumSumTransform" and any(v < tiny for v in ys)):
+                        continue
+                    back = tr.inv(y).to(DT).tolist()
+                    cs, acc = [], 0.0
+                    for v in xs:
+                        acc += v
+                        cs.append(acc)
+                    big = max(1.0, max(abs(c) for c in cs))
+                    tol = rel * big + 16 * eps * big
+                    worst = max(abs(a - b) for a, b in zip(back, xs))
+                    if not worst <= tol:
+                        record(f"{name}:inverse-sweep:{dt}", f"{name} ({dt}): inverse(forward({xs})) = {back} (running sums {cs}; error "
+                               f"{worst:.3g}, allowed {tol:.3g})", {"type": "inverse-sweep", "name": name, "x": xs, "dtype": str(dt)}, (len(xs), 1))
+                        break
+                except Exception as e:
+                    record(f"{name}:inverse-sweep:raises", f"{name} at {xs} ({dt}): raises {type(e).__name__}: {str(e)[:120]}",
+                           {"type": "inverse-sweep", "name": name, "x": xs, "dtype": str(dt)}, (1, 1))
+                    break
+
+
 def run_section(ck, rng, record):
     drv6 = None
     try:
@@ -276,8 +411,10 @@ def run_section(ck, rng, record):
         if drv6 is not None:
             for label, t, ages, x in ratio_cases(ck, rng):
                 check_ratio(ck, drv6, label, t, ages, x, record)
+            check_big_trees(ck, drv6, rng, record)
         check_scaling_law(ck, rng, record)
         check_others(ck, rng, record)
+        check_inverse_sweep(ck, rng, record)
     finally:
         if drv6:
             drv6.close()
@@ -299,8 +436,14 @@ def replay(obj):
     if obj["type"] == "scale-ratio":
         drv6 = Driver("drv_c06")
         try:
+            big = obj.get("big", False)
+            dt = torch.float32 if "float32" in obj.get("dtype", "") else DT
             check_ratio(_Ck(), drv6, obj["label"], G.parse_paren(obj["tree"]), obj["dates"], obj["x"][0],
-                        lambda sig, what, rep, size: found.append((sig, what)))
+                        lambda sig, what, rep, size: found.append((sig, what)), dtype=dt, with_ad=not big, with_flex=not big)
         finally:
             drv6.close()
+    elif obj["type"] == "inverse-sweep":
+        import random
+
+        check_inverse_sweep(_Ck(), random.Random(0), lambda sig, what, rep, size: found.append((sig, what)))
     return found
